@@ -475,6 +475,19 @@ def catalogue_c10(seed, tier, rng):
         c.add("viewshed", "viewshed", [R("elev", dt, lay, shape=(5, 6), res=False, cx=1.0, cy=1.0, nonfinite=False)],
               {"x": 2.0, "y": 2.0, "observer_elev": 3}, identity="viewshed", heavy=True)
 
+    # failing calls: the library rejects the arguments - the inputs must be untouched all the same
+    for dt, lay in some(2, native=False):
+        c.add("failing", "focal_apply", [R("elev", dt, lay)], {"kernel": np.ones((2, 3)), "func": "mean"},
+              expect_error="ValueError")
+        c.add("failing", "reclassify", [R("elev", dt, lay)], {"bins": [40.0, 50.0], "new_values": [1.0]},
+              expect_error="ValueError")
+        c.add("failing", "ndvi", [R("band", dt, lay), R("band", "f4", "C", shape=(4, 5))], {}, expect_error="ValueError")
+        c.add("failing", "zonal_stats", [R("cats", "i4", lay), R("elev", dt, "C")], {"stats_funcs": ["median"]},
+              identity="own", expect_error="ValueError")
+        c.add("failing", "a_star_search", [R("elev", dt, lay, res=False, cx=1.0, cy=1.0, nonfinite=False)],
+              {"start": (0.0, 0.0), "goal": (500.0, 6.0)}, expect_error="ValueError")
+        c.add("failing", "regions", [R("cats", dt, lay)], {"neighborhood": 5}, expect_error="ValueError")
+
     # Dask rasters over caller-owned buffers (chunks are views of them)
     dk = [("slope", {}, "same"), ("aspect", {}, "same"), ("curvature", {}, "same"),
           ("hillshade", {"azimuth": 225, "angle_altitude": 25}, "same"),
